@@ -59,6 +59,38 @@ func checkC03(c *Ctx) {
 		if an.CalleeIs(cc, G, "(*ResponseWriter).Write") {
 			refusal = append(refusal, ci)
 		}
+		// the refusal written by a helper that is handed serve's own writer and writes to it exactly once on every path
+		// (`m.refuseUnrouted(w, req)`)
+		if h := an.StaticCallee(cc); h != nil && an.InModule(h) && len(h.Blocks) > 0 && isCall(ci) && !isHandlerInvoke(cc) {
+			wi := -1
+			for i, a := range cc.Args {
+				if an.Strip(a) == ssa.Value(serve.Params[1]) && i < len(h.Params) {
+					wi = i
+				}
+			}
+			if wi >= 0 {
+				isW := func(in ssa.Instruction) bool {
+					wc, ok := in.(*ssa.Call)
+					return ok && an.CalleeIs(wc.Common(), G, "(*ResponseWriter).Write") && an.Strip(wc.Common().Args[0]) == ssa.Value(h.Params[wi])
+				}
+				cntH := an.CountEvents(h, an.Entry(h), isW, nil)
+				once := len(an.Returns(h)) > 0
+				for _, ret := range an.Returns(h) {
+					if cntH[ret] != an.C1 {
+						once = false
+					}
+				}
+				noHandler := true
+				for _, hc := range an.Calls(h) {
+					if isHandlerInvoke(hc.Common()) {
+						noHandler = false
+					}
+				}
+				if once && noHandler {
+					refusal = append(refusal, ci)
+				}
+			}
+		}
 	}
 	isEvent := func(in ssa.Instruction) bool {
 		for _, h := range hcalls {
@@ -739,11 +771,35 @@ func (c *Ctx) checkRefusal(serve *ssa.Function, refusal []ssa.CallInstruction) {
 	}
 	w := refusal[0]
 	key := "(*Mux).serve: built-in refusal"
+	var reqV ssa.Value = serve.Params[2] // the request, as seen where the refusal is built
+	if !an.CalleeIs(w.Common(), G, "(*ResponseWriter).Write") {
+		// the refusal is built and written by a helper that is handed serve's (w, req): judge it there
+		h := an.StaticCallee(w.Common())
+		var inner ssa.CallInstruction
+		for _, ic := range an.Calls(h) {
+			if an.CalleeIs(ic.Common(), G, "(*ResponseWriter).Write") {
+				inner = ic
+			}
+		}
+		ri := -1
+		for i, a := range w.Common().Args {
+			if an.Strip(a) == ssa.Value(serve.Params[2]) && i < len(h.Params) {
+				ri = i
+			}
+		}
+		if inner == nil || ri < 0 {
+			R.Unknown("C03-refusal", key, c.pos(w), "the refusal helper "+fname(h)+" is not given serve's request")
+			return
+		}
+		w, reqV = inner, h.Params[ri]
+		serve = h
+		key = fname(h) + " (called by (*Mux).serve): built-in refusal"
+	}
 	resp := an.Strip(w.Common().Args[1])
 	call, ok := resp.(*ssa.Call)
-	var reqV ssa.Value = serve.Params[2] // the request, as seen where the refusal is built
+	reqParam := reqV
 	if ok && !an.CalleeIs(call.Common(), G, "(*Request).NewResponse") {
-		if h := an.StaticCallee(call.Common()); h != nil && an.InModule(h) && len(h.Blocks) > 0 && len(call.Common().Args) == 1 && an.Strip(call.Common().Args[0]) == ssa.Value(serve.Params[2]) {
+		if h := an.StaticCallee(call.Common()); h != nil && an.InModule(h) && len(h.Blocks) > 0 && len(call.Common().Args) == 1 && an.Strip(call.Common().Args[0]) == reqParam {
 			// a helper of the request that does nothing but `return r.NewResponse(<options>)`: judge that call
 			var inner *ssa.Call
 			n := 0
